@@ -13,7 +13,7 @@ FOCUS = {
     "C04": dict(gens=[("core", 14), ("file", 14), ("keys", 16)], quick=55, thorough=800, what="clear-text scan of store, exports and log after every step"),
     "C05": dict(gens=[("core", 16), ("keys", 22)], quick=90, thorough=1200, what="every issued key signs verifiably iff unlocked, also after export / delete / import"),
     "C06": dict(gens=[("core", 16), ("file", 16), ("keys", 18)], quick=55, thorough=800, what="plot-key issuance interleaved with everything else"),
-    "C12": dict(gens=[("fault", 12), ("fault", 14)], quick=110, thorough=1200, what="faults at writes and commits of every mutating call"),
+    "C12": dict(gens=[("fault", 12), ("fault2", 14)], quick=110, thorough=1200, what="faults at writes and commits of every mutating call"),
 }
 
 
